@@ -237,6 +237,10 @@ def check(ctx, case):
 
 
 def finalize(ctx):
+    if ctx.tier == "thorough" and ctx.shard == 0:  # ambient contracts while the repository's own pinned tests run
+        from vf import ambient
+
+        ambient.run_tests(ctx, "C05", ["tests/data/test_edge_maps.py"], ["generate_pafs"])
     for v in VARIANTS:
         ctx.require("real_calls:" + v, 1)
     ctx.require("edge_fields_checked", 20)
